@@ -173,8 +173,8 @@ def run(tier, t0):
         "states": r.distinct, "transitions": r.generated, "traces_validated_against_impl": len(recs),
         "samples": [{"expr": cases[o["case"]]["expr"], "cols": cases[o["case"]]["cols"], "embedding": o["emb"], "image": o["image_type"]} for o in obs[:: max(1, len(obs) // 4)]][:4],
         "evaluations": sum(len(o["points"]) for o in obs), "distinct_nontrivial": sum(1 for rec in recs if any(q["value"] == "ok" for q in rec["points"])),
-        "rule": "cases of spec/ExprCases.tla enumerated by TLC: every function of the listed signatures x column types from pools of interval shapes (point, interval, full range, three values, upper part; optional variants) x 16 aggregates on lists of 4 size ranges x compositions outer(inner(..), ..); each under 5 order embeddings (default, extremes, 2^53 boundary, around zero, positive) and every row of universe points (capped at 48 per case); non-trivial = some row evaluates",
-        "exhaustive": True, "functions": fns, "cases": len(cases), "embeddings": 5,
+        "rule": "cases of spec/ExprCases.tla enumerated by TLC: every function of the listed signatures x column types from pools of interval shapes (point, interval, full range, three values, upper part; optional variants) x 16 aggregates on lists of 4 size ranges x compositions outer(inner(..), ..); each under 6 order embeddings (default, extremes, 2^53 boundary, around zero, positive, around the quarter periods of sin / cos) and every row of universe points (capped at 48 per case); non-trivial = some row evaluates",
+        "exhaustive": True, "functions": fns, "cases": len(cases), "embeddings": 6,
         "image_outcomes": {k: sum(1 for rec in recs if rec["image"] == k) for k in ("ok", "err", "panic")},
         "points_structurally_judged": sum(1 for rec in recs for q in rec["points"] if q["structural"]),
         "points_judged_by_library_membership": sum(1 for rec in recs for q in rec["points"] if q["value"] == "ok" and not q["structural"]),
